@@ -293,7 +293,7 @@ func edgeKnowsLeadingSlash(pred, succ *ssa.BasicBlock, v ssa.Value) bool {
 func runC17(p *core.Prog, r *core.Report) {
 	r.Rule("C17-R1", "every non-base argument of the returned filepath.Join derives only from path.Clean (through identity-on-POSIX wrappers); the first argument is the base parameter; the raw URL path reaches Join by no other route", 2)
 	r.Rule("C17-R2", "the argument of path.Clean starts with '/' on every path (constant prefix, or the parameter on an edge where p[0] == '/' is established); the index p[0] is guarded by a non-empty test", 1)
-	r.NotDecided = append(r.NotDecided, "Windows volume/backslash semantics", "that the result for dot-free paths is the plain join is filepath.Join's contract")
+	r.NotDecided = append(r.NotDecided, "Windows volume/backslash semantics", "that the result for dot-free paths is the plain join is filepath.Join's contract", "that a fallback return of the base itself is taken only when the join escaped (a variant returning the base on more paths stays inside the base but breaks the plain-join clause)")
 	r.Trusted = append(r.Trusted, "path.Clean: a rooted path stays rooted and loses every '..' element", "filepath.Join(base, rooted-clean-suffix) is Clean(base) or below", "filepath.FromSlash is the identity on POSIX", "a rooted slash path that does not contain \"/.\" has no '.' or '..' segment (every segment follows a slash); filepath.Join cleans repeated and trailing slashes")
 
 	fn := p.Func("util/fsutil", "ResolveUrlPath")
